@@ -426,6 +426,9 @@ class Interp:
             return v.t
         if isinstance(v, SInt):
             return v.t != 0
+        from .sym import SBV
+        if isinstance(v, SBV):
+            return v.t != 0
         if isinstance(v, (SStr, SSeq)):
             return z3.Length(v.t) > 0
         if isinstance(v, SSet):
